@@ -131,6 +131,19 @@ def gen_cfg(rng, shape=None, nnt=None, nterms=None, convergent=True, maxrules=8,
         rules.append([rng.choice(SMALL), B, [B, A]])
     rng.shuffle(rules)
     V = set(terms)
+    # unary part: keep every row of the unary matrix below 1/2 so that its closure converges
+    # (a self-loop of weight >= 1 is a divergent input, outside every property)
+    for _ in range(12):
+        rows = {}
+        for w, h, b in rules:
+            if len(b) == 1 and b[0] not in V:
+                rows[h] = rows.get(h, 0) + w
+        bad = {h for h, v in rows.items() if v > Fraction(1, 2)}
+        if not bad:
+            break
+        for r in rules:
+            if r[1] in bad and len(r[2]) == 1 and r[2][0] not in V:
+                r[0] = r[0] / 2
     if convergent:
         rules = make_convergent(rules, V, rng)
     desc = {"S": "S", "V": sorted(V), "rules": [[frac_str(w), h, list(b)] for w, h, b in rules]}
